@@ -302,6 +302,18 @@ class Splicer:
             k += 1
         if n:
             self.log("R1", 0, f"{n} attribute(s) and doc comments stripped")
+        # visibility: pub(crate)/pub(super) -> pub (single-file, single-module unit)
+        sig = self.live_sig()
+        nv = 0
+        for pos, k in enumerate(sig[:-1]):
+            if toks[k].kind == "ident" and toks[k].text == "pub" and toks[sig[pos + 1]].text == "(":
+                close = match_close(toks, sig[pos + 1])
+                inner = [toks[q].text for q in range(sig[pos + 1] + 1, close) if toks[q].kind not in TRIVIA]
+                if inner in (["crate"], ["super"]):
+                    self.remove_range(sig[pos + 1], close)
+                    nv += 1
+        if nv:
+            self.log("R1v", 0, f"{nv} restricted visibilities widened to `pub`")
 
     def hoist_nested(self):
         if self.body_open < 0:
@@ -645,7 +657,7 @@ class Splicer:
         pre = []
         if spec.attrs:
             pre.append(spec.attrs)
-        if spec.trusted:
+        if spec.trusted and self.kw == "fn":
             pre.append("#[verifier::external_body]")
         for p in pre:
             out.append((p + "\n", ("tmpl", "attrs", 0)))
@@ -717,7 +729,7 @@ def generate(template_path, repo, canary=False, only_items=None):
             files[rel] = SourceFile(rel, open(p, encoding="utf-8").read())
         return files[rel]
 
-    def process(path, depth=0):
+    def process(path, depth=0, force_trusted=False):
         text = open(path, encoding="utf-8").read()
         rel = os.path.relpath(path, VERIF)
         pos = 0
@@ -734,10 +746,16 @@ def generate(template_path, repo, canary=False, only_items=None):
             head = lines[0].strip()
             if head.startswith("include "):
                 inc = head[len("include "):].strip()
-                process(os.path.join(VERIF, inc), depth + 1)
+                ft = force_trusted
+                if inc.endswith(" trusted"):
+                    inc = inc[:-len(" trusted")].strip()
+                    ft = True
+                process(os.path.join(VERIF, inc), depth + 1, ft)
                 continue
             if head.startswith("item "):
                 spec = parse_item_block(head[len("item "):], lines[1:], rel, first_line)
+                if force_trusted and " :: fn " in (" :: " + spec.selector):
+                    spec.trusted = True
                 sf = get_sf(spec.file)
                 item = sf.find(spec.selector)
                 sp = Splicer(sf, item, spec, rules)
